@@ -421,7 +421,7 @@ static void list_history()
     sub.name = "session history";
     sub.bound = "consecutive positions of short games searched in one session (with / without ucinewgame between); first search stopped at every k (N <= cap), then the next go";
     bool q = TIER == "quick";
-    long long cap = q ? 400 : 4000;
+    long long cap = q ? 250 : 4000;
     struct Game
     {
         const char* fen;
@@ -527,7 +527,7 @@ static void list_poison()
         size_t kc = 0;
         for (auto& kv : keys)
         {
-            if (q && kc++ >= 12) break;
+            if (q && kc++ >= 8) break;
             ref::Pos kp;
             ref::parse_fen(kv.second, kp);
             std::vector<ref::Mv> lm;
@@ -963,7 +963,7 @@ static void list_clockseam()
                     // the search stops at the first clock read at or after its budget: think <= budget + step
                     if (o.horizon_hit || think < 0)
                         R.violation("C20:search_seam:no_answer_within_horizon", mc::JObj().raw("session", spec_json(s)));
-                    else if (10 * (think - 4 * step) > 7LL * T)
+                    else if (10 * (think - 8 * step) > 7LL * T)
                         R.violation(std::string("C20:search_seam:above_70_percent:") + (nmoves == 1 ? "single_legal_move" : "several_legal_moves"),
                                     mc::JObj().raw("session", spec_json(s)).n("thinking_ms", think).n("time_left_ms", T).n("legal_moves", (long long)nmoves));
                     R.outcome(std::to_string(T ? 100 * think / T : 0));
